@@ -125,7 +125,11 @@ func (s *generateState) generateType(t schema.Type, selections []ast.Selection, 
 						return "", fmt.Errorf("__typename is required by inline fragment")
 					}
 				}
-				cond := s.schema.NamedTypes()[sel.TypeCondition.Name.Name]
+				// An inline fragment without a type condition applies to the enclosing type.
+				cond := t.(schema.NamedType)
+				if sel.TypeCondition != nil {
+					cond = s.schema.NamedTypes()[sel.TypeCondition.Name.Name]
+				}
 				gen, err := s.generateType(cond, sel.SelectionSet.Selections, false, fragTypes)
 				if err != nil {
 					return "", err
